@@ -87,7 +87,7 @@ func (World) Rule(prop string) string {
 	case "C39":
 		return "3-8 BLS keys of 1-3 owners, max nodes 1-4, min nodes 1-max, 10-80 calls through validator (stake with top-up, unStake, unStakeNodes, unBond, unBondNodes, unJail, reStakeUnStakedNodes, unStakeTokens, unBondTokens) and protocol calls to staking (jail, switchJailedWithWaiting, stakeNodesFromQueue, unStakeAtEndOfEpoch, updateConfigMaxNodes, updateConfigMinNodes, resetLastUnJailedFromQueue, cleanAdditionalQueue), peer-list changes, nonce/epoch ticks, activation epochs drawn per run; non-trivial = the waiting list was non-empty at a check and a key left the staked or waiting set; distinct = hash of full plan"
 	case "C40":
-		return "arm synth: 2-4 synthetic contracts with 2-8 program ops each (set, del, foreign set, transfer, nested call with/without value, planned failure always or at the n-th invocation, gas use), pre-existing storage, 1-2 transactions, gas limit swept in the gas arm; arms stake / deleg: the C39 / C38 run types with their real nested calls; non-trivial = a nested call failed after writing and the transaction still ended Ok; distinct = hash of full plan"
+		return "arm synth: 2-4 synthetic contracts with 2-8 program ops each (set, del, foreign set, transfer, nested call with/without value, planned failure always or at the n-th invocation, gas use), pre-existing storage, 1-2 transactions, gas limit swept in the gas arm; arms stake / deleg: the C39 / C38 run types with their real nested calls; non-trivial = a nested call failed after writing storage or transferring and the transaction still ended Ok (caller continued); distinct = hash of full plan"
 	case "C41":
 		return "3-14 issue calls (fungible, semi-fungible, non-fungible) by 1-3 callers with tickers of 3-10 characters, per call a random seed that is fresh, repeated, or taken from the near-ffffff table; before some issues 1-60 consecutive identifiers starting at the candidate are made pre-existing; non-trivial = >=2 successful issues of which one had to retry or met the ffffff boundary; distinct = hash of full plan"
 	}
@@ -95,7 +95,7 @@ func (World) Rule(prop string) string {
 }
 
 func (World) Budget(prop, tier string) int {
-	q := map[string]int{"C38": 5000, "C39": 6000, "C40": 8000, "C41": 6000}[prop]
+	q := map[string]int{"C38": 7000, "C39": 9000, "C40": 14000, "C41": 20000}[prop]
 	if tier == "thorough" {
 		return q * 30
 	}
